@@ -142,7 +142,7 @@ META = dict(
     trusted_base=["CBMC 6.11: its built-in undefined-behaviour properties (signed overflow, shifts, division, pointer arithmetic, bounds, pointer validity) on every instruction of the verified functions",
                   "C compilers translate well-defined C correctly: then identical results across compilers and -O levels FOLLOW from UB-freedom (the differential run is corroboration only)",
                   "unsigned<->signed conversions are implementation-defined, not undefined, and are deliberately not flagged"],
-    assumptions=["program shapes: per-opcode probes + control-flow shapes (enumerated); all inputs symbolic, including trapping ones (the trap stub ends the path before any guarded operation)"],
+    assumptions=["E/S emitter contracts: array.c's growth step enters through the contract stub of harness/e_expr.c (discharged on the real array.c by job A.ensure_capacity.4, realloc/calloc being CBMC's library models); stack heights <= 2^24, label stacks <= 2^16; the string builder is the ghost recorder (its real implementation is under contract in C10); operand-stack entries hold valid value types (validated module)", "program shapes: per-opcode probes + control-flow shapes (enumerated); all inputs symbolic, including trapping ones (the trap stub ends the path before any guarded operation)"],
     explanation="Every runtime macro wrapper and every generated probe function is proved free of undefined behaviour for all inputs together with its functional contract; "
                 "declared-type facts (every slot/local declared with an initialiser where wasm requires zero) are visible to CBMC as nondeterministic reads otherwise. "
                 "Compilers: syntax acceptance in gnu89/default dialects and a boundary-grid differential run.",
